@@ -63,6 +63,37 @@ class Ctx(object):
         self.results.append(r)
         return r
 
+    def borrow(self, module_name, src_rule, new_rule, statement, reference=None):
+        """Instantiate, under this property, a rule that another property's module evaluates: the other module's run() is
+        executed once on a context that shares this one's parsed program / call graph / effect engine, and the result of
+        ``src_rule`` is re-labelled ``new_rule`` (finding keys included) with this property's own statement of why it needs it."""
+        import importlib
+
+        cache = self.__dict__.setdefault("_borrowed", {})
+        if module_name not in cache:
+            sub = Ctx(self.prop, self.tier, self.seed, self.repo, self.overlay)
+            sub._program, sub._cg, sub._effects = self.p, self.cg, self._effects
+            mod = importlib.import_module("clikit_sa.rules." + module_name)
+            mod.run(sub)
+            if self._effects is None and sub._effects is not None:
+                self._effects = sub._effects
+            self.consulted |= sub.consulted
+            cache[module_name] = {r.rule_id: r for r in sub.results}
+        src = cache[module_name].get(src_rule)
+        if src is None:
+            raise AnalysisError("rule %s not produced by %s" % (src_rule, module_name))
+        r = RuleResult(self.prop, new_rule, src.kind, statement + " (same rule as %s)" % src_rule, reference if reference is not None else src.reference)
+        r.instances = list(src.instances)
+        r.notes = list(src.notes)
+        r.vacuous_ok = src.vacuous_ok
+        for f in src.findings:
+            from .report import Finding
+
+            key = new_rule + f.key[len(src_rule):] if f.key.startswith(src_rule) else new_rule + "|" + f.key
+            r.findings.append(Finding(new_rule, self.prop, key, f.loc, f.message, f.detail))
+        self.results.append(r)
+        return r
+
     def require(self, cond, msg):
         if not cond:
             raise AnalysisError(msg)
